@@ -8,16 +8,16 @@ hooks = sh("git -C /repo log --format=%H --grep='^verif hook' --reverse").split(
 
 CHECKS = {
  "C15": dict(engine="E2+E3", level="exploration", technique="deterministic simulation: seeded scheduler at lock granularity + reference-model lockstep + porcupine linearizability",
-   text="Seeded histories of the eight MemIdm calls over a 6-name pool: sequential runs compared step by step with a two-map reference model (all names and all ids ever handed out re-queried after every step); concurrent runs of 2-4 clients under the serialising scheduler (every RWMutex acquisition is a scheduling point) checked for linearizability against the same model with porcupine. Sampling, not proof.",
+   text="Seeded histories of the eight MemIdm calls over a 6-name pool: sequential runs compared step by step with a two-map reference model (all names and all ids ever handed out re-queried after every step); concurrent runs of 2-4 clients under the serialising scheduler (every RWMutex acquisition is a scheduling point) checked for linearizability against the same model with porcupine. Built with -tags 'verif avfs_setostype': 30% of the runs use a Windows-typed MemIdm (other administrator names). Sampling, not proof.",
    note="trusted: scheduler model of sync.RWMutex (cross-checked by TryLock on every grant), porcupine, the reference model (ids are constrained to be fresh, not predicted)", ref="3/C15"),
 }
 
 CHECKS["C07"] = dict(engine="E2", level="exploration", technique="deterministic simulation: seeded scheduler decides every interleaving at lock granularity; deadlock = no runnable client; argument-fault injection",
-   text="Every call is executed on a simulated client: the scheduler owns every RWMutex acquisition (hook H1), so a self-deadlock or a lock-order inversion is decided (some client live, none runnable), a busy loop hits the step budget / watchdog and a panic is recovered and reported. Sequential histories draw operands from an adversarial domain on MemFS, OrefaFS, RoFS, BasePathFS and FailFS; concurrent programs of 2-4 clients explore seeded interleavings (uniform, sticky-with-preemption, round-robin, PCT). Sampling, not proof.",
+   text="Every call is executed on a simulated client: the scheduler owns every RWMutex acquisition (hook H1), so a self-deadlock or a lock-order inversion is decided (some client live, none runnable), a busy loop hits the step budget / watchdog and a panic is recovered and reported. Sequential histories draw operands from an adversarial domain on MemFS, OrefaFS, RoFS, BasePathFS and FailFS; concurrent programs of 2-4 clients explore seeded interleavings (uniform, sticky-with-preemption, round-robin, PCT). Concurrent MemIdm programs are run too, and every kernel-lockstep check (C01-C04, C14) reports a call that does not return as a C07 violation. Observations of the tree made by the harness itself run under a budget of lock events. Sampling, not proof.",
    note="trusted: scheduler model of sync.RWMutex (TryLock cross-check), the 20 s no-event watchdog as the definition of a busy loop, sizes bounded to 1 MiB", ref="3/C07")
 
 CHECKS["C06"] = dict(engine="E2", level="exploration", technique="deterministic simulation: seeded interleavings at lock granularity + porcupine linearizability against the sequential implementation",
-   text="Programs of 2-4 clients x 1-3 namespace calls on one shared tree (MemFS through per-client Sub views, or one OrefaFS) run under the serialising scheduler; every RWMutex acquisition is a scheduling point decided from the tape. The history (invoke/return by global event counter) plus a final observation of the tree and all handles is checked with porcupine against the same implementation executed sequentially (fresh instance per candidate order). Two recorded root causes (acting on a directory/name that a concurrent call removes or moves) are known findings; 90% of the runs drop the calls that would expose them so that the rest of the space is checked strictly. Sampling, not proof.",
+   text="Programs of 2-4 clients x 1-3 namespace calls on one shared tree (MemFS through per-client Sub views, or one OrefaFS) run under the serialising scheduler; every RWMutex acquisition is a scheduling point decided from the tape. The history (invoke/return by global event counter) plus a final observation of the tree and all handles is checked with porcupine against the same implementation executed sequentially (fresh instance per candidate order). Two recorded root causes (acting on a directory/name that a concurrent call removes or moves) are known findings; 90% of the runs drop the calls that would expose them so that the rest of the space is checked strictly. Program shapes: uniform, focused on one directory, with handles opened before the concurrent phase, and pair mode (two clients, one call each, every template equally likely). A Stat/Lstat/Readlink that answers with an object type or link target no sequential order yields is reported on its own, outside the recorded race families. Sampling, not proof.",
    note="trusted: scheduler model of sync.RWMutex (TryLock cross-check), porcupine, equivalence of sequential orders with identical observable state; sequential defects are out of scope here (C01)", ref="3/C06")
 
 CHECKS["C08"] = dict(engine="E2", level="exploration", technique="deterministic simulation coupled with the Go race detector: seeded schedules, scheduler hand-offs hidden from the detector",
@@ -32,7 +32,7 @@ CHECKS["C09"] = dict(engine="E3", level="exploration", technique="deterministic 
    text="Seeded histories of every VFS and File method (OpenFile with arbitrary flag combinations, handle methods on returned files, Sub followed by calls on the result, recursively) through rofs.New(base) over MemFS (with symbolic and hard links) and OrefaFS bases prepared by a seeded direct history. Around every call the whole base snapshot including modification times must be identical; mutators must fail with a permission-class error; read-only calls must equal the same call on the base (twin handles). Sampling, not proof.",
    note="no schedule or fault dimension exists in the statement; the simulator contributes seeded world, workload, shrinking, replay. Chdir/SetUMask forwarding is outside the statement's list", ref="3/C09")
 CHECKS["C10"] = dict(engine="E3", level="exploration", technique="deterministic twin simulation with adversarial path strings: BasePathFS(base,B) vs standalone twin, outside-B snapshot around every call",
-   text="Seeded histories of path-taking and handle calls with paths over {names, '.', '..', '/', '//', B's own name} absolute and relative, Chdir mixed in, the base's working directory left inside B, outside B or in a directory whose name extends B's, issued through basepathfs.New(base,'/a') and on a standalone twin whose root holds B's content. After every call: everything outside B in the base (with mtimes, and B's own existence) unchanged; outcome, data, Getwd/Abs/Glob results and the paths embedded in PathError/LinkError equal the twin's after normalisation to absolute clean virtual paths; File.Name is the virtual path opened; virtual tree equals the twin's tree. Sampling, not proof.",
+   text="Seeded histories of path-taking and handle calls with paths over {names, '.', '..', '/', '//', B's own name} absolute and relative, Chdir mixed in, the base's working directory left inside B, outside B or in a directory whose name extends B's, issued through basepathfs.New(base,'/a') and on a standalone twin whose root holds B's content. After every call: everything outside B in the base (with mtimes, and B's own existence) unchanged; outcome, data, Getwd/Abs/Glob results and the paths embedded in PathError/LinkError equal the twin's after normalisation to absolute clean virtual paths; File.Name is the virtual path opened; virtual tree equals the twin's tree. In 30% of the runs B is passed to the constructor in an unclean spelling. Sampling, not proof.",
    note="twin = same implementation, so shared sequential defects cancel (C01's). Narrow relaxations listed in DESIGN.md section 8 (error precedence when the root is renamed, handle names derived from the opening string, empty path)", ref="3/C10")
 
 CHECKS["C11"] = dict(engine="E3", level="exploration", technique="deterministic twin simulation: parent + Sub views as clients interleaved at call granularity vs a twin driven with prefixed paths",
@@ -48,7 +48,7 @@ CHECKS["C16"] = dict(engine="E3", level="fault_enumeration", technique="determin
    note="trusted: read-back through the underlying file systems, crypto/sha256; a Close error of the source handle may be ignored", ref="3/C16")
 
 CHECKS["C17"] = dict(engine="E3", level="exploration", technique="deterministic twin simulation across the OS-type configuration: Windows-typed vs Linux-typed instance of the same file system, built with avfs_setostype",
-   text="In a simulator built with -tags 'verif avfs_setostype': static checks (reported OS type, separator, volume calls against a set model) and seeded histories of the C01 templates expressed with portable path builders (Join of name components under the instance's own root or volume), issued by the administrator on a Windows-typed and a Linux-typed instance of MemFS or OrefaFS: call-by-call agreement on success/failure, isomorphic trees after ToSlash and volume stripping (names, types, contents, link counts, link targets), Windows-typed errors are WindowsError values. Chown/Lchown are not generated and permission bits/owners are not compared (documented OS-specific). Sampling, not proof.",
+   text="In a simulator built with -tags 'verif avfs_setostype': static checks (reported OS type, separator, volume calls against a set model) and seeded histories of the C01 templates expressed with portable path builders (Join of name components under the instance's own root or volume), issued by the administrator on a Windows-typed and a Linux-typed instance of MemFS or OrefaFS: call-by-call agreement on success/failure, isomorphic trees after ToSlash and volume stripping (names, types, contents, link counts, link targets), Windows-typed errors are WindowsError values. Chown/Lchown are not generated and permission bits/owners are not compared (documented OS-specific). Variants: the Windows-typed twin on a second volume, relative link targets starting with '..', both twins through a BasePathFS rooted at the work directory (its root, '.' and '..' as operands), Sub. Sampling, not proof.",
    note="reference = Linux-typed instance of the same implementation (common sequential defects cancel: C01's); system directories differ by design, histories run below a work directory", ref="3/C17")
 
 CHECKS["C01"] = dict(engine="E1", level="exploration", technique="deterministic lockstep simulation against the real kernel: every call also issued through osfs.OsFS in a chrooted helper process, full tree comparison after every call",
@@ -56,7 +56,7 @@ CHECKS["C01"] = dict(engine="E1", level="exploration", technique="deterministic 
    note="reference = Go os package on this kernel's tmpfs as root in a chroot; mtimes, directory sizes/link counts not compared; symlink targets generated clean; OrefaFS owners not compared (no identity manager advertised)", ref="3/C01")
 
 CHECKS["C04"] = dict(engine="E1", level="exploration", technique="deterministic lockstep simulation against the real kernel with a symbolic-link-heavy profile",
-   text="MemFS trees built by seeded Mkdir/WriteFile/Symlink histories with targets of every shape (sibling, ../x, ../../x, absolute, self, 2- and 3-cycles, chains of 2-45 links on both sides of the kernel's limit of 40, dangling, below a regular file), links re-targeted mid-history, then 10-40 calls (Stat, Lstat, Open, ReadFile, ReadDir, Chmod, Truncate, Mkdir/WriteFile below, EvalSymlinks, Readlink, Remove, Rename, Lchown, Link) on paths of 1-4 components through those names, each executed in lockstep on the real kernel inside the chrooted helper (filepath.EvalSymlinks for EvalSymlinks): same errno class, same data, same tree after every call. Sampling, not proof.",
+   text="MemFS trees built by seeded Mkdir/WriteFile/Symlink histories with targets of every shape (sibling, ../x, ../../x, absolute, self, 2- and 3-cycles, chains of 2-45 links on both sides of the kernel's limit of 40, dangling, below a regular file), links re-targeted mid-history, then 10-40 calls (Stat, Lstat, Open, ReadFile, ReadDir, Chmod, Truncate, Mkdir/WriteFile below, EvalSymlinks, Readlink, Remove, Rename, Lchown, Link) on paths of 1-4 components through those names, each executed in lockstep on the real kernel inside the chrooted helper (filepath.EvalSymlinks for EvalSymlinks): same errno class, same data, same tree after every call. Also Chdir, File.Chdir on handles opened through links, Getwd and relative paths after the current directory moved; the current directory is compared with the kernel's after every successful Chdir. Sampling, not proof.",
    note="reference = Go os/filepath on this kernel's tmpfs in a chroot (absolute targets and '..' at the root mean the same on both sides); EvalSymlinks compared on chains of at most 30 links (filepath.EvalSymlinks has its own limit of 255)", ref="3/C04")
 
 CHECKS["C02"] = dict(engine="E1", level="exploration", technique="deterministic lockstep simulation of file-handle histories against os.File, with close/remove/rename/truncate at arbitrary instants under open handles",
@@ -98,7 +98,7 @@ def main():
         "setup_cmd": "./check --setup",
         "hooks": {
             "guard": "verif",
-            "enable": "go build -tags verif (harness module /verif with replace github.com/avfs/avfs => /repo); -race added for C08",
+            "enable": "go build -tags verif (harness module /verif with replace github.com/avfs/avfs => /repo); -race added for C08, avfs_setostype added for C15 and C17",
             "baseline_off_cmd": "cd /repo && GOFLAGS=-mod=mod GOPROXY=off go test -json -vet=off -count=1 -timeout 25m ./...",
             "source_commits": hooks,
             "add_only": False,
